@@ -78,8 +78,8 @@ structure DState where
 def ssCfg : Sg.SSCfg where
   mapOf := fun c => if c ≤ 2 then 0 else if c = 3 then 1 else 2
   keyOf := fun m a =>
-    if m = 2 then [0, 1, 1, 1, 1, 1, 2, 2, 2, 1, 1].getD a 9      -- len(args) + len(kwargs)
-    else [0, 1, 1, 1, 2, 3, 4, 4, 5, 6, 7].getD a 9               -- ==-class of (args, json(kwargs))
+    if m = 2 then [0, 1, 1, 1, 1, 1, 2, 2, 2, 1, 1, 1, 1].getD a 9      -- len(args) + len(kwargs)
+    else [0, 1, 1, 1, 2, 3, 4, 4, 5, 6, 7, 8, 8].getD a 9               -- ==-class of (args, json(kwargs))
 
 def showOptV : Option VId → String
   | none => "-"
@@ -411,6 +411,17 @@ def step (st : DState) (line : String) : DState × String :=
           | .insts l => "ok " ++ showList (fun i => s!"S{i}") l)
       | _, _ => bad
     else generic ()
+  | ["ssalli", c, d, a] =>
+    -- get_all(c) consumed incrementally around a construction of class d: the report is the snapshot taken first
+    match parseId 'C' c, parseId 'C' d, parseId 'A' a with
+    | some c, some d, some a =>
+      if a == 9 then bad else
+      match (st.ss.step ssCfg (.getAll c)).2 with
+      | .insts l =>
+        let (ss, r) := st.ss.step ssCfg (.construct d a)
+        ({ st with ss := ss }, "ok " ++ showList (fun i => s!"S{i}") l ++ (match r with | .inst i => s!" S{i}" | _ => " ?"))
+      | _ => bad
+    | _, _, _ => bad
   | ["ssall", c] =>
     match parseId 'C' c with
     | some c => match (st.ss.step ssCfg (.getAll c)).2 with
@@ -427,7 +438,7 @@ def step (st : DState) (line : String) : DState × String :=
     let alls := (List.range 6).map fun c => match (st.ss.step ssCfg (.getAll c)).2 with
       | .insts l => s!"{c}:" ++ "+".intercalate ((l.mergeSort (· ≤ ·)).map toString)
       | _ => s!"{c}:?"
-    let chks := (List.range 6).flatMap fun c => (List.range 11).filterMap fun a =>
+    let chks := (List.range 6).flatMap fun c => (List.range 13).filterMap fun a =>
       match (st.ss.step ssCfg (.check c a)).2 with
       | .inst i => some s!"{c}/{a}:{i}"
       | _ => none
